@@ -51,7 +51,11 @@ def main():
             m = os.path.join(d, "meta.json")
             if os.path.exists(m) and (not names or os.path.basename(d) in names):
                 meta = json.load(open(m))
-                jobs.append(("seeded", os.path.basename(d), os.path.join(d, "patch.diff"), meta.get("caught_by") or [meta["property"]]))
+                cb = meta.get("caught_by")
+                if cb == []:
+                    print("skip seeded %-24s recorded as NOT caught (undecided clause): %s" % (os.path.basename(d), meta.get("how_caught", "")[:90]))
+                    continue
+                jobs.append(("seeded", os.path.basename(d), os.path.join(d, "patch.diff"), cb or [meta["property"]]))
     if what in ("preserving", "all"):
         for f in sorted(glob.glob(os.path.join(HERE, "preserving", "*.diff"))):
             n = os.path.basename(f)[:-5]
